@@ -94,7 +94,10 @@ def member_instants(m):
     if m["kind"] == "list":
         return list(m["elems"])
     if "_inst" not in m:
-        m["_inst"] = [to_z(d) for d in build_member(m)]
+        try:
+            m["_inst"] = with_timeout(lambda: [to_z(d) for d in build_member(m)], 10)
+        except _Timeout:
+            raise RuntimeError("stall while listing the member rule %r (a lock left held?)" % (clean(m),))
     return m["_inst"]
 
 
@@ -231,7 +234,16 @@ def gen_rule(r):
     return m
 
 
+MIN_Z = -63082281600            # 0001-01-01 00:00:00
+MAX_Z = 252455615999            # 9999-12-31 23:59:59
+
+
 def pick_instant(r, pool):
+    """an instant of the pool (or a near miss), kept inside datetime's range"""
+    return max(MIN_Z, min(MAX_Z, pick_instant_(r, pool)))
+
+
+def pick_instant_(r, pool):
     if pool and r.random() < 0.75:
         z = r.choice(pool)
         return z + (r.choice([-1, 1, 3600, -3600]) if r.random() < 0.15 else 0)
@@ -1117,7 +1129,7 @@ def main():
             plan = {"sets": (4, 700), "c01sets": (4, 40), "tagged": (1, 1500), "hist": (4, 750), "stale": (2, 300)}
             procs = 4
         else:
-            plan = {"sets": (16, 15000), "c01sets": (16, 600), "tagged": (4, 10000), "hist": (32, 15000), "stale": (8, 6000)}
+            plan = {"sets": (16, 15000), "c01sets": (16, 300), "tagged": (4, 10000), "hist": (32, 12000), "stale": (8, 6000)}
             procs = min(16, os.cpu_count() or 4)
         jobs = [("small", "0", 0, tier)]
         jobs += [("smallhist", str(k), 4 if tier == "quick" else 5, tier) for k in range(len(SMALL_ALPHABET))]
